@@ -61,13 +61,13 @@ func (z *gzipWriter) Close() error {
 }
 
 type gzipReader struct {
-	*gzip.Reader
-	pool *sync.Pool
+	*gzip.Reader // nil once it was returned to the pool
+	pool         *sync.Pool
 }
 
 // Decompress implements the Compressor interface.
 func (c *CompressorGzip) Decompress(r io.Reader) (io.Reader, error) {
-	z, ok := c.poolDecompressor.Get().(*gzipReader)
+	z, ok := c.poolDecompressor.Get().(*gzip.Reader)
 	if !ok {
 		newZ, err := gzip.NewReader(r)
 		if err != nil {
@@ -76,16 +76,22 @@ func (c *CompressorGzip) Decompress(r io.Reader) (io.Reader, error) {
 		return &gzipReader{Reader: newZ, pool: &c.poolDecompressor}, nil
 	}
 	if err := z.Reset(r); err != nil {
-		z.pool.Put(z)
+		c.poolDecompressor.Put(z)
 		return nil, err
 	}
-	return z, nil
+	return &gzipReader{Reader: z, pool: &c.poolDecompressor}, nil
 }
 
 func (z *gzipReader) Read(p []byte) (n int, err error) {
+	if z.Reader == nil {
+		return 0, io.EOF // already drained and returned to the pool
+	}
 	n, err = z.Reader.Read(p)
 	if err == io.EOF {
-		z.pool.Put(z)
+		// Hand the decompressor back exactly once: reading again after EOF
+		// must not touch a reader that another request may already own.
+		z.pool.Put(z.Reader)
+		z.Reader = nil
 	}
 	return n, err
 }
